@@ -23,7 +23,8 @@ TABLE = [
 
 
 SELECTION = [("flp", None, 3, 4), ("mcp", None, 2, 3), ("dpp", None, 4, 9), ("mdpp", None, 4, 9)]
-EXTRA = {"C02": SELECTION, "C03": SELECTION[:2]}
+SMTWTP = [("smtwtp", None, 3, 4)]
+EXTRA = {"C02": SELECTION + SMTWTP, "C03": SELECTION[:2] + SMTWTP}
 NO_GENERATOR = {"dpp", "mdpp"}  # constructors need downloaded data: no generator rollouts (witness runs are still replayed)
 
 
@@ -47,6 +48,13 @@ def plan(prop, tier, seed, B_quick=1):
                          "params": dict(spec=spec, variant=variant, n=n, B=B, mode=prop)})
         if spec not in NO_GENERATOR:
             pairs.append((spec, variant, nq + 2))
+    if prop in ("C02", "C03"):
+        # scheduling environments: the C07 harness proves, on every path, that an action is offered, that the episode ends
+        # within ops+waits steps, that stepping never raises, and that reward == -makespan
+        from . import C07
+
+        sched = C07.plan(tier, seed)["jobs"]
+        jobs += [dict(j, id=j["id"].replace("C07:", prop + ":sched ")) for j in sched if j["module"] == "vf.sched"][: (4 if tier == "quick" else None)]
     return {
         "jobs": jobs,
         "torch_requests": CF.rollout_requests(pairs, seed),
